@@ -1067,3 +1067,86 @@ def jo_long(n, J, deltas=(0, -1, 1), probe=False):
         outcomes |= r['outcomes']
     tot['distinct_outcomes'] = len(outcomes)
     return tot, viol
+
+
+# ------------------------------------------------------------------------------------------------
+# larger fields (C03): every multiset of n result cards from a reduced card set (one card per countback signature), fed round-robin,
+# closed by a height at which everybody left fails, jump-offs closed by one deciding round (first alive clears / everybody retires)
+
+def reduced_cards(R, limit=None):
+    """one legal single-athlete card over R heights per (countback key, retired?, last cell) signature, simplest first"""
+    hs = [FIRST_HEIGHT + r for r in range(R)]
+    seen, out = set(), []
+    for c in sorted(single_cards(R), key=lambda c: (sum(len(s) for s in c), c)):
+        key = (hjmodel.countback_key(list(c), hs), hjmodel.has_retired(list(c)), c[-1][-1:] if c[-1] else '')
+        if key not in seen:
+            seen.add(key)
+            out.append(c)
+    return out[:limit] if limit else out
+
+
+def _placing_work(chunk):
+    (n, R), combos = chunk
+    d = Deep(n, R + 1, 1)
+    for cards in combos:
+        comp, model, hist = d.start()
+        ok = True
+        for r in range(R + 1):
+            if comp.state in ('finished', 'drawn', 'jumpoff'):
+                break
+            call = ('bar', FIRST_HEIGHT + r)
+            if apply_call(comp, call) is not None:
+                ok = False
+                break
+            model.step(call); hist.append(call)
+            if r < R:
+                plan = {b: cards[i][r] for i, b in enumerate(model.order) if cards[i][r]}
+            else:
+                plan = {b: 'x' * (3 - hjmodel.consecutive_failures(model.cards[b])) for b in model.order if not model.out_regular(b)}
+            # strings of athletes who are already out are dropped (their card says so too)
+            plan = {b: s for b, s in plan.items() if not model.out_regular(b)}
+            if not _feed(comp, model, plan, d.viol, hist):
+                ok = False
+                break
+        if not ok:
+            continue
+        d.stats['nodes'] += 1
+        d.check(comp, model, hist)
+        if comp.state == 'jumpoff':
+            d.stats['jumpoffs'] += 1
+            pick = pickle.dumps(comp, 4)
+            for variant in ('first-clears', 'all-retire'):
+                c2, m2, h2 = pickle.loads(pick), model.clone(), list(hist)
+                call = ('bar', m2.heights[-1])
+                if apply_call(c2, call) is not None:
+                    d.viol.append(('deep:jump-off-bar-refused', h2 + [call], 'refused'))
+                    continue
+                m2.step(call); h2.append(call)
+                alive = list(m2.jo_alive)
+                plan = {b: ('o' if i == 0 else 'x') if variant == 'first-clears' else 'r' for i, b in enumerate(alive)}
+                if _feed(c2, m2, plan, d.viol, h2):
+                    d.stats['nodes'] += 1
+                    d.check(c2, m2, h2)
+        d.stats['leaves'] += 1
+    if GuardedLog.reads:
+        raise HarnessError('a transition read the action log')
+    return dict(stats=d.stats, viol=d.viol[:20], outcomes=d.outcomes)
+
+
+def placing_enumerate(n, R, ncards=None):
+    import itertools
+    cards = reduced_cards(R, ncards)
+    combos = list(itertools.combinations_with_replacement(cards, n))
+    nchunks = min(len(combos), common.NPROC * 8)
+    res = common.pmap(_placing_work, [((n, R), combos[i::nchunks]) for i in range(nchunks)])
+    tot = dict(nodes=0, leaves=0, terminal_checked=0, jumpoffs=0)
+    viol, outcomes = [], set()
+    for r in res:
+        for k in tot:
+            tot[k] += r['stats'].get(k, 0)
+        viol.extend(r['viol'])
+        outcomes |= r['outcomes']
+    tot['reduced_cards'] = len(cards)
+    tot['card_multisets'] = len(combos)
+    tot['distinct_outcomes'] = len(outcomes)
+    return tot, viol
